@@ -135,3 +135,32 @@ Proof. vmspec vm_OP_INT_GE spec_cmp. Qed.
 Ltac vmundef f := intros a b H; unfold f; crunch; first [reflexivity | exfalso; destruct H; timeout 20 arith].
 Lemma vm_undef_propagates_add : forall a b, a = YR_UNDEFINED \/ b = YR_UNDEFINED -> vm_OP_INT_ADD a b = VVal YR_UNDEFINED.
 Proof. vmundef vm_OP_INT_ADD. Qed.
+
+(* ------------------------------------------------------------------ boolean opcodes and undefined values (C04) *)
+Definition truthZ (x : Z) : bool := negb (x =? YR_UNDEFINED) && negb (x =? 0).
+
+Lemma vm_and_spec : forall a b, vm_OP_AND a b = VVal (b2z (truthZ a && truthZ b)).
+Proof. intros a b. unfold vm_OP_AND, truthZ. crunch; unfold b2z; repeat match goal with |- context [if ?c then _ else _] => destruct c eqn:? end; first [reflexivity | exfalso; timeout 20 arith]. Qed.
+
+Lemma vm_or_spec : forall a b, vm_OP_OR a b = VVal (b2z (truthZ a || truthZ b)).
+Proof. intros a b. unfold vm_OP_OR, truthZ. crunch; unfold b2z; repeat match goal with |- context [if ?c then _ else _] => destruct c eqn:? end; first [reflexivity | exfalso; timeout 20 arith]. Qed.
+
+Lemma vm_not_spec : forall a, vm_OP_NOT a = VVal (if a =? YR_UNDEFINED then YR_UNDEFINED else b2z (a =? 0)).
+Proof. intros a. unfold vm_OP_NOT. crunch; unfold b2z; repeat match goal with |- context [if ?c then _ else _] => destruct c eqn:? end; first [reflexivity | exfalso; timeout 20 arith]. Qed.
+
+Ltac vmundef2 f := intros a b H; unfold f; crunch; first [reflexivity | exfalso; destruct H; timeout 20 arith].
+Lemma vm_undef_sub : forall a b, a = YR_UNDEFINED \/ b = YR_UNDEFINED -> vm_OP_INT_SUB a b = VVal YR_UNDEFINED. Proof. vmundef2 vm_OP_INT_SUB. Qed.
+Lemma vm_undef_mul : forall a b, a = YR_UNDEFINED \/ b = YR_UNDEFINED -> vm_OP_INT_MUL a b = VVal YR_UNDEFINED. Proof. vmundef2 vm_OP_INT_MUL. Qed.
+Lemma vm_undef_div : forall a b, a = YR_UNDEFINED \/ b = YR_UNDEFINED -> vm_OP_INT_DIV a b = VVal YR_UNDEFINED. Proof. vmundef2 vm_OP_INT_DIV. Qed.
+Lemma vm_undef_mod : forall a b, a = YR_UNDEFINED \/ b = YR_UNDEFINED -> vm_OP_MOD a b = VVal YR_UNDEFINED. Proof. vmundef2 vm_OP_MOD. Qed.
+Lemma vm_undef_shl : forall a b, a = YR_UNDEFINED \/ b = YR_UNDEFINED -> vm_OP_SHL a b = VVal YR_UNDEFINED. Proof. vmundef2 vm_OP_SHL. Qed.
+Lemma vm_undef_shr : forall a b, a = YR_UNDEFINED \/ b = YR_UNDEFINED -> vm_OP_SHR a b = VVal YR_UNDEFINED. Proof. vmundef2 vm_OP_SHR. Qed.
+Lemma vm_undef_band : forall a b, a = YR_UNDEFINED \/ b = YR_UNDEFINED -> vm_OP_BITWISE_AND a b = VVal YR_UNDEFINED. Proof. vmundef2 vm_OP_BITWISE_AND. Qed.
+Lemma vm_undef_bor : forall a b, a = YR_UNDEFINED \/ b = YR_UNDEFINED -> vm_OP_BITWISE_OR a b = VVal YR_UNDEFINED. Proof. vmundef2 vm_OP_BITWISE_OR. Qed.
+Lemma vm_undef_bxor : forall a b, a = YR_UNDEFINED \/ b = YR_UNDEFINED -> vm_OP_BITWISE_XOR a b = VVal YR_UNDEFINED. Proof. vmundef2 vm_OP_BITWISE_XOR. Qed.
+Lemma vm_undef_eq : forall a b, a = YR_UNDEFINED \/ b = YR_UNDEFINED -> vm_OP_INT_EQ a b = VVal YR_UNDEFINED. Proof. vmundef2 vm_OP_INT_EQ. Qed.
+Lemma vm_undef_neq : forall a b, a = YR_UNDEFINED \/ b = YR_UNDEFINED -> vm_OP_INT_NEQ a b = VVal YR_UNDEFINED. Proof. vmundef2 vm_OP_INT_NEQ. Qed.
+Lemma vm_undef_lt : forall a b, a = YR_UNDEFINED \/ b = YR_UNDEFINED -> vm_OP_INT_LT a b = VVal YR_UNDEFINED. Proof. vmundef2 vm_OP_INT_LT. Qed.
+Lemma vm_undef_gt : forall a b, a = YR_UNDEFINED \/ b = YR_UNDEFINED -> vm_OP_INT_GT a b = VVal YR_UNDEFINED. Proof. vmundef2 vm_OP_INT_GT. Qed.
+Lemma vm_undef_le : forall a b, a = YR_UNDEFINED \/ b = YR_UNDEFINED -> vm_OP_INT_LE a b = VVal YR_UNDEFINED. Proof. vmundef2 vm_OP_INT_LE. Qed.
+Lemma vm_undef_ge : forall a b, a = YR_UNDEFINED \/ b = YR_UNDEFINED -> vm_OP_INT_GE a b = VVal YR_UNDEFINED. Proof. vmundef2 vm_OP_INT_GE. Qed.
